@@ -61,12 +61,17 @@ type Program struct {
 	allFuncs map[*ssa.Function]bool
 	modFuncs []*ssa.Function
 	rawFuncs []*ssa.Function
+	dead     map[*ssa.Function]bool // new helpers without remaining callers after inlining
 	cg       *callgraph.Graph
 	cgTime   time.Duration
 	ren      *renameInfo
 	typeRen  map[*types.TypeName]string
 
 	NormNotes []string // what the helper-inlining pass did (reported in the evidence)
+
+	spans      map[string][][]span // per normalised file: the replacements of each inlining round (position map)
+	roundSpans map[string][]span
+	origSrc    map[string][]byte
 }
 
 // Load loads ./... of cfg.Dir. Any load or type error is returned: the checker fails closed.
@@ -249,6 +254,7 @@ func (p *Program) ModuleFuncs() []*ssa.Function {
 		dead[fn] = true
 		p.NormNotes = append(p.NormNotes, "new helper "+fn.Name()+" has no remaining caller after inlining and is not analysed")
 	}
+	p.dead = map[*ssa.Function]bool{}
 	for _, fn := range all {
 		root := fn
 		for root.Parent() != nil {
@@ -256,6 +262,8 @@ func (p *Program) ModuleFuncs() []*ssa.Function {
 		}
 		if !dead[root] {
 			p.modFuncs = append(p.modFuncs, fn)
+		} else {
+			p.dead[fn] = true
 		}
 	}
 	return p.modFuncs
@@ -293,6 +301,11 @@ func (p *Program) CallGraph() *callgraph.Graph {
 	start := time.Now()
 	p.ModuleFuncs()
 	p.cg = vta.CallGraph(p.allFuncs, cha.CallGraph(p.SSA))
+	for fn := range p.dead {
+		if n := p.cg.Nodes[fn]; n != nil {
+			p.cg.DeleteNode(n)
+		}
+	}
 	p.cgTime = time.Since(start)
 	return p.cg
 }
@@ -342,6 +355,9 @@ func (p *Program) Position(pos token.Pos) string {
 	}
 	ps := p.Fset.Position(pos)
 	f := strings.TrimPrefix(ps.Filename, p.Cfg.Dir+"/")
+	if l, c, ok := p.origPosition(ps.Filename, ps.Offset); ok {
+		return fmt.Sprintf("%s:%d:%d", f, l, c) // mapped back from the helper-inlined view to the file in the repository
+	}
 	return fmt.Sprintf("%s:%d:%d", f, ps.Line, ps.Column)
 }
 
